@@ -410,6 +410,19 @@ fn programs(family: &str) -> Vec<(String, Outcome)> {
             p(&st("    x := B { a: 1, b: \"s\" }\n"), Outcome::Reject);
             p(&st("    x := X { a: 1 }\n"), Outcome::Reject);
         }
+        "order" => {
+            // globals may be written in any order; initialisers that need each other are rejected
+            p("a :: b + 1\nb :: 1\nstart :: fn do\n    print(a)\nend\n", Outcome::Accept);
+            p("b :: 1\na :: b + 1\nstart :: fn do\n    print(a)\nend\n", Outcome::Accept);
+            p("start :: fn do\n    print(a)\nend\na :: b + 1\nb :: c * 2\nc :: 3\n", Outcome::Accept);
+            p("a :: b + 1\nb :: a + 1\nstart :: fn do\n    print(a)\nend\n", Outcome::Reject);
+            p("a :: b\nb :: c\nc :: a\nstart :: fn do\n    print(a)\nend\n", Outcome::Reject);
+            p("f :: fn n: int -> int do\n    if n < 1 do\n        ret 0\n    end\n    ret f(n - 1)\nend\nstart :: fn do\n    print(f(3))\nend\n", Outcome::Accept);
+            p("a :: a + 1\nstart :: fn do\n    print(a)\nend\n", Outcome::Reject);
+            p("f :: fn -> int do\n    ret g()\nend\ng :: fn -> int do\n    ret 1\nend\nstart :: fn do\n    print(f())\nend\n", Outcome::Accept);
+            // (two global functions that call each other depend on each other cyclically: rejected; only a function's use of itself is exempt)
+            p("f :: fn n: int -> int do\n    if n < 1 do\n        ret 0\n    end\n    ret g(n - 1)\nend\ng :: fn n: int -> int do\n    ret f(n)\nend\nstart :: fn do\n    print(f(3))\nend\n", Outcome::Reject);
+        }
         "nopanic" => {
             p("B :: blob { a: int }\nstart :: fn do\n    B :: blob { a: int }\n    print(1)\nend\n", Outcome::Reject);
             p("E :: enum\n    X,\nend\nstart :: fn do\n    E :: enum\n        X,\n    end\nend\n", Outcome::Reject);
